@@ -25,6 +25,17 @@ def _consts(tier, asfound, rounds):
     return c
 
 
+def _action_coverage(r):
+    """Per-action counts from TLC's -coverage output: {action: states generated}."""
+    import re
+    cov = {}
+    for line in r.lines("<"):
+        m = re.match(r"<(\w+) line \d+, col \d+ to line \d+, col \d+ of module WsHandshakeImpl>: (\d+):(\d+)", line)
+        if m and m.group(1) not in ("Init",):
+            cov[m.group(1)] = int(m.group(3))
+    return cov
+
+
 def _library_panic(stderr):
     """True if the process died with a panic/fatal error whose innermost
     non-runtime frame is library code (not the harness)."""
@@ -180,11 +191,15 @@ def run(ck):
     consts = _consts(ck.tier, asfound, rounds)
     cfg = vlib.cfg_with(sw, "WsHandshakeImpl_mc.cfg", consts,
                         drop=["INVARIANTS"] if asfound else None, add=["INVARIANTS TypeOK"] if asfound else None)
-    r = vlib.tlc(sw, "WsHandshakeImpl", cfg, workers=4, timeout=1500,
-                 extra=["-coverage", "1"] if thorough else None)
+    r = vlib.tlc(sw, "WsHandshakeImpl", cfg, workers=4, timeout=1500, extra=["-coverage", "1"])
     if not r.ok:
         raise vlib.Inconclusive("WsHandshakeImpl: %s\n%s" % (r.violated or r.error, r.tail()))
     ck.add_tlc("WsHandshakeImpl as repaired (scenario generation)", r, consts)
+    cov = _action_coverage(r)
+    ck.cov["action_coverage"] = cov
+    ck.cov["actions_never_taken"] = sorted(a for a, n in cov.items() if n == 0)
+    if not cov or ck.cov["actions_never_taken"]:
+        raise vlib.Inconclusive("vacuity: actions never taken in the exhaustive run: %s" % (ck.cov["actions_never_taken"] or "no coverage output"))
     model_bad = sorted({line.split('"')[3] for line in r.lines('<<"MODELBAD"')})
     if model_bad and not asfound:
         ck.cov["model_findings"] = model_bad
